@@ -112,6 +112,55 @@ def config_class(failing_keys, applicable_keys):
 
 
 # --------------------------------------------------------------------------------------------------
+# reference model of the protocol layer set (DESIGN Appendix A): 11 basic layers + one layer per selected module
+# --------------------------------------------------------------------------------------------------
+BASIC_LAYERS = ("YowAuthenticationProtocolLayer", "YowMessagesProtocolLayer", "YowReceiptProtocolLayer",
+                "YowAckProtocolLayer", "YowPresenceProtocolLayer", "YowIbProtocolLayer", "YowIqProtocolLayer",
+                "YowNotificationsProtocolLayer", "YowContactsIqProtocolLayer", "YowChatstateProtocolLayer",
+                "YowCallsProtocolLayer")
+MODULE_LAYER = {"groups": "YowGroupsProtocolLayer", "media": "YowMediaProtocolLayer",
+                "privacy": "YowPrivacyProtocolLayer", "profiles": "YowProfilesProtocolLayer"}
+
+
+def assembly_findings(cfg, classes):
+    """compare the classes returned by YowStackBuilder.getProtocolLayers for cfg with the model -> [(what, detail)]"""
+    names = [c.__name__ for c in classes]
+    out = []
+    dup = sorted(set(n for n in names if names.count(n) > 1))
+    if dup:
+        out.append(("layer-duplicated", dict((n, names.count(n)) for n in dup)))
+    for m in MODULES:
+        if MODULE_LAYER[m] in names and not cfg.has(m):
+            out.append(("left-out-module-present", MODULE_LAYER[m]))
+        if MODULE_LAYER[m] not in names and cfg.has(m):
+            out.append(("selected-module-missing", MODULE_LAYER[m]))
+    missing = [n for n in BASIC_LAYERS if n not in names]
+    if missing:
+        out.append(("basic-layer-missing", missing))
+    foreign = sorted(set(names) - set(BASIC_LAYERS) - set(MODULE_LAYER.values()))
+    if foreign:
+        out.append(("unexpected-layer", foreign))
+    return out
+
+
+def assembly_preflight(passes=2):
+    """build every configuration `passes` times in one process (simplest first) and compare each layer set with
+    the model -> [(what, config key, build number, detail)]; stops at the first faulty build (a faulty assembly
+    can grow without bound)"""
+    n = 0
+    for _ in range(passes):
+        for cfg in CONFIGS:
+            n += 1
+            classes = YowStackBuilder.getProtocolLayers(groups=cfg.groups, media=cfg.media, privacy=cfg.privacy,
+                                                        profiles=cfg.profiles)
+            bad = assembly_findings(cfg, classes)
+            if bad:
+                return [(what, cfg.key, n, {"config": cfg.key, "build_number_in_process": n, "problem": detail,
+                                            "layers": [c.__name__ for c in classes][:40]}) for what, detail in bad], n
+    return [], n
+
+
+# --------------------------------------------------------------------------------------------------
 # recording layers
 # --------------------------------------------------------------------------------------------------
 class BottomProbe(YowLayer):
